@@ -2,6 +2,7 @@ import CheetahModel.DriverMaps
 import CheetahModel.DriverLattice
 import CheetahModel.DriverElems
 import CheetahModel.DriverBmadx
+import CheetahModel.DriverDual
 /-!
 # Line-protocol driver
 
@@ -16,7 +17,7 @@ def parseF (s : String) : Option Float := s.toNat?.map fun n => Float.ofBits n.t
 def fmtF (x : Float) : String := toString x.toBits.toNat
 
 def floatOps : List (String → Array Float → Option (List Float)) :=
-  [Drv.mapsOp, DrvEl.elemsOp, DrvB.bmadxOp]
+  [Drv.mapsOp, DrvEl.elemsOp, DrvB.bmadxOp, DrvD.dualOp]
 
 def runFloatOp (op : String) (a : Array Float) : Option (List Float) :=
   floatOps.findSome? fun f => f op a
